@@ -22,7 +22,9 @@ def sh(cmd, cwd=None):
 
 
 def main():
-    names = sys.argv[1:] or sorted(d for d in os.listdir(SEEDED) if os.path.isdir(os.path.join(SEEDED, d)))
+    args = [a for a in sys.argv[1:] if not a.startswith('--')]
+    targeted_only = '--targeted-only' in sys.argv[1:]
+    names = args or sorted(d for d in os.listdir(SEEDED) if os.path.isdir(os.path.join(SEEDED, d)))
     mpath = os.path.join(SEEDED, 'matrix.json')
     matrix = json.load(open(mpath)) if os.path.exists(mpath) else {}
     assert sh('git status --porcelain', cwd=REPO)[1].strip() == '', '/repo not clean'
@@ -60,8 +62,10 @@ def main():
             row[pid] = res
             from concurrent.futures import ThreadPoolExecutor
             with ThreadPoolExecutor(max_workers=4) as ex:
-                for pid, res in ex.map(one, [p for p in ALL if p != first]):
+                for pid, res in ex.map(one, [] if targeted_only else [p for p in ALL if p != first]):
                     row[pid] = res
+            if targeted_only:
+                row['_note'] = 'targeted check only'
         finally:
             sh('git checkout -- .', cwd=REPO)
             sh('rm -rf replays', cwd=ROOT)
@@ -78,7 +82,8 @@ def write_readme(matrix):
              '(what was changed, what it needs in order to manifest, what was run to confirm it).', '',
              'The table is written by `tools/seeded_matrix.py`: every patch applied to /repo in turn, every check run in its quick',
              'tier, the tree restored.  "failing input" = the check printed VIOLATION lines with a concrete replay;',
-             '"L1/proof only" = only the correspondence broke (VIOLATION ... no-failing-input-found).', '',
+             '"L1/proof only" = only the correspondence broke (VIOLATION ... no-failing-input-found).  Rows marked (t) were run',
+             'with `--targeted-only`: only the check of the targeted property was run against that change.', '',
              '| seeded change | targets | caught by (failing input) | correspondence only | first replay of the targeted check |',
              '|---|---|---|---|---|']
     for name in sorted(matrix):
@@ -90,7 +95,8 @@ def write_readme(matrix):
         fi = [p for p in ALL if row.get(p, {}).get('result') == 'failing input']
         l1 = [p for p in ALL if row.get(p, {}).get('result') == 'L1/proof only']
         det = row.get(target, {}).get('detail', '').replace('|', '\\|')
-        lines.append('| %s | %s | %s | %s | `%s` |' % (name, target, ' '.join(fi) or '-', ' '.join(l1) or '-', det[:160]))
+        lines.append('| %s%s | %s | %s | %s | `%s` |' % (name, ' (t)' if row.get('_note') else '', target, ' '.join(fi) or '-',
+                                                       ' '.join(l1) or '-', det[:160]))
     neutral = [n for n in matrix if os.path.exists(os.path.join(SEEDED, n, 'NEUTRALISED'))]
     missed = [n for n in matrix if 'error' not in matrix[n] and matrix[n].get(n[:3], {}).get('result') != 'failing input'
               and n not in neutral]
